@@ -139,6 +139,23 @@ def templates():
     T.append(('ring opening of a C-C ring bond', [('C', None), ('C', None)],
               [(1, 0, 'single')],
               [('break', 0, 1, None), ('rad+', 0), ('rad+', 1)]))
+    # pattern bonds of UNSPECIFIED order (any / nonring / strong) with
+    # increase / decrease edits: the matches of one rule have mixed orders
+    T.append(('any-bond diradical: increase order', [('C', '.'), ('C', '.')],
+              [(1, 0, 'any')],
+              [('inc', 0, 1), ('rad-', 0), ('rad-', 1)]))
+    T.append(('nonring bond: decrease order', [('C', None), ('C', None)],
+              [(1, 0, 'nonring')],
+              [('dec', 0, 1), ('rad+', 0), ('rad+', 1)]))
+    T.append(('any bond C~O: decrease order', [('C', None), ('O', None)],
+              [(1, 0, 'any')],
+              [('dec', 0, 1), ('rad+', 0), ('rad+', 1)]))
+    T.append(('ring bond: decrease order', [('C', None), ('C', None)],
+              [(1, 0, 'ring')],
+              [('dec', 0, 1), ('rad+', 0), ('rad+', 1)]))
+    T.append(('strong bond: decrease order', [('C', None), ('C', None)],
+              [(1, 0, 'strong')],
+              [('dec', 0, 1), ('rad+', 0), ('rad+', 1)]))
     return T
 
 
